@@ -30,7 +30,7 @@ CHECKS = {
          "Exploration with an exhaustive core: every token sequence up to length 3 (quick) / 4 (thorough) over 39 type-system token classes, every one-token extension of every viable prefix up to length 6 / 7 and every one-token extension of each freshly dead prefix (51M sequences quick), 29k / 750k single-token mutants of rendered documents, 9.6k / 250k unmutated renderings whose parsed tree must equal the generated tree under two trivia placements, and 2.4k / 62k multi-source parses checking the BuiltIn flag and source identity of every definition and extension.",
          "Trusts the grammar transcription (Oct 2021 Appendix B) and the reference lexer. Six defects repaired (4d982fd, ed840c2, b3e17c4, ce4e730, 4c3db2d, 11abd49); two recorded findings (reserved enum value names accepted - pinned by the suite; empty document accepted).",
          "DESIGN.md §4 C06"),
- "C07": ("three-way reference-model monitor: valid-by-construction schema generator, 36-entry fault catalogue (one injector per enumerated rule) and an independent type-system rule checker vs gqlparser.LoadSchema; graph-closure monitor over every returned *ast.Schema",
+ "C07": ("three-way reference-model monitor: valid-by-construction schema generator, 36-entry fault catalogue (one injector per enumerated rule) and an independent type-system rule checker vs gqlparser.LoadSchema; graph-closure monitor over every returned *ast.Schema; inclusion of the October 2021 specification's built-ins (written down independently) in loaded schemas; valid and faulted variants of one schema loaded in both orders",
          "Fault enumeration + exploration: 5k (quick) / 200k (thorough) generated schemas must load; each with every applicable single injected violation (54k / 6M faulted schemas, all 36 rule codes reached, counted per code) must be rejected; 20k / 500k random SDL documents judged in the direction violation => rejected. Every loaded schema is walked: type references, interface/union member kinds, PossibleTypes/Implements equal the relations implied by the definitions (no nil, pointer identity), built-ins, roots, introspection fields.",
          "Trusts the rule checker (written from the property's rule list and spec section 3) and the C06-checked parser used to read SDL back into the model; rules the loader enforces beyond the enumeration are recognised and not judged. Two defects repaired (4ab1531, adc721d).",
          "DESIGN.md §4 C07"),
@@ -42,7 +42,7 @@ CHECKS = {
          "Exploration: 16k (quick) / 400k (thorough) documents valid by construction (deep literals, list-coerced values, fragments on unions/interfaces, __typename, introspection fields, variables through fragments, directives everywhere) are validated; ~190k fields, ~170k values, ~28k variable uses, ~32k directives per quick run are checked for Definition / ObjectDefinition / ExpectedType / VariableDefinition / Location links, in operations and in every fragment definition.",
          "Complete by construction over the documents generated (visits every node); custom-scalar literal contents are excepted as the property states; __typename's synthetic definition is checked by name and type.",
          "DESIGN.md §4 C09"),
- "C10": ("determinism monitor: byte equality of canonically serialized error lists across k fresh parses, re-validation of the validated tree, schema reloads and 4 worker processes (digests compared by the driver)",
+ "C10": ("determinism monitor: byte equality of canonically serialized error lists across k fresh parses, re-validation of the validated tree, schema reloads and 4 worker processes (digests compared by the driver); an outline of the schema object before and after validation (a validation must leave its inputs as it found them)",
          "Exploration: 5k (quick) / 76k (thorough) invalid-biased cases (1-3 injected faults incl. near-miss names with several equidistant suggestion candidates, collision documents, faulted schemas) x 8 / 16 in-process repeats x 4 processes; any difference in rule, message, location or order on any axis is a violation. The case generator's own determinism is checked (same index, same text in every process).",
          "A cross-process difference is replayed with 64 in-process repeats; map-order effects show on both axes. One defect repaired (3c593d2).",
          "DESIGN.md §4 C10"),
@@ -62,7 +62,7 @@ CHECKS = {
          "Exploration: 10k (quick) / 300k (thorough) valid documents from the typed generator, each with a per-variable choice of conforming value / explicit null / omission passed through VariableValues; ArgumentMap is called for every field and directive of every operation, of the fragments it reaches and of its variable definitions (75k / 2.2M maps), incl. custom-scalar arguments with arbitrary literals, nested variables and extreme numerals.",
          "Supplied variables are taken as coerced by the library (C14 judges that); omitted ones must have an entry. One recorded finding (panic on custom-scalar integer literals beyond int64).",
          "DESIGN.md §4 C15"),
- "C16": ("limit-exactness oracle against an independent reference token count, every limit 0..T+2; hook counters (lexer reads, last scanned byte) for the work bound; lowered stack ceiling for recursion depth",
+ "C16": ("limit-exactness oracle against an independent reference token count, every limit 0..T+2; hook counters (lexer reads, last scanned byte) and allocated bytes (runtime.MemStats.TotalAlloc) for the work bound; lowered stack ceiling for recursion depth; the caller's Source must be left as given",
          "Exploration: ~8k (quick) / 60k (thorough) documents of both grammars (valid and single-token-mutated, comments everywhere) are parsed under every limit from 0 to T+2 through ParseQueryWithTokenLimit, ParseSchemaWithLimit and ParseSchemasWithLimit (per-source limits); success must be exact (L=0 or L>=T reproduces the unlimited tree by reflect.DeepEqual; 0<L<T fails) and monotone, and every limit failure must have read at most L+2 tokens and scanned no byte beyond reference token L+2. 1-8 MiB floods (nesting, tokens, comments) under limits 1..15000 run with a 32 MiB stack ceiling so unbounded recursion is a fatal exit.",
          "T comes from the reference lexer (C03); when the unlimited parse fails only failure (not the error text) is required of limits >= T, because the property asks no more. Work is measured in hook counters, not time.",
          "DESIGN.md §4 C16"),
@@ -74,7 +74,7 @@ CHECKS = {
          "Exploration: 3k (quick) / 60k (thorough) fault-heavy (schema, document) pairs x (31 singletons + 12 / 40 random subsets of 2-7 rules in random order + the full set + the default call), every validation on a fresh parse; 95k single-rule and 37k subset validations per quick run.",
          "Clause (1) assumes the registration order is the alphabetical order of the rule files. Needs no reference model: the library is compared with itself.",
          "DESIGN.md §4 C18"),
- "C19": ("runtime round-trip monitor: model(parse(x)) vs model(json.Unmarshal(json.Marshal(parse(x)))) over generated documents",
+ "C19": ("runtime round-trip monitor: model(parse(x)) vs model(json.Unmarshal(json.Marshal(parse(x)))) over generated documents, then a node-by-node reflective comparison of the encoded and the decoded tree through everything encoding/json carries (positions and comments excepted; for validated documents as deep as the linked schema definitions go)",
          "Exploration: every generated document is parsed by the real parser, encoded and decoded by the real (un)marshalers and compared with an independent AST→model adapter; 20k (quick) / 500k (thorough) documents with all three selection kinds at every depth and order. Held on what was observed, not a proof.",
          "Trusts encoding/json and the harness's model adapter; positions, comments and validation annotations are outside the property and not compared.",
          "DESIGN.md §4 C19"),
@@ -87,8 +87,8 @@ CHECKS["C20"] = ("well-formedness monitor on every error object from every entry
          "The token-limit error (plain error, no source) and Validate's nil-argument guard errors are only checked for a non-empty message.",
          "DESIGN.md §4 C20")
  
-CHECKS["C11"] = ("Go race detector (go build -race) over concurrent histories on one shared schema with seeded yield injection at hook sites + deep reflective schema snapshot (slices to capacity) before/after + per-call result equality against sequential baselines",
-         "Exploration: 120 (quick) / 600 (thorough) rounds; in each, one generated schema is shared by 2-32 goroutines running 40 / 120 seeded operations each on their own documents (validate with default and explicit rule lists, VariableValues, ArgumentMap over whole documents, FormatSchema, relation lookups): ~37k concurrent operations per quick run under the race detector. Any race report touching gqlparser, any snapshot difference and any result that differs from the same call run alone (before and after the round) is a violation; the evidence lists distinct completion orders observed.",
+CHECKS["C11"] = ("Go race detector (go build -race) over concurrent histories on one shared schema with seeded yield injection at hook sites + deep reflective schema snapshot (slices to capacity) before/after + per-call result equality against sequential baselines, in the same process and in a second worker process that plays the same rounds in the opposite order",
+         "Exploration: 120 (quick) / 600 (thorough) rounds, each played by two worker processes (forward, and backward with warm and cold rounds swapped); in each, one generated schema is shared by 2-32 goroutines running 40 / 120 seeded operations each on their own documents (validate with default and explicit rule lists, VariableValues, ArgumentMap over whole documents, FormatSchema, relation lookups): ~37k concurrent operations per quick run under the race detector. Any race report touching gqlparser, any snapshot difference and any result that differs from the same call run alone (before and after the round, and alone in the other worker process with its other history) is a violation; the evidence lists distinct completion orders observed.",
          "Interleavings are those the scheduler produced (yield probability 0, 3%, 30% at walker events); happens-before race detection does not need the bad interleaving to occur. Races inside the harness itself would be reported as a broken check, not as a violation.",
          "DESIGN.md §4 C11")
 
